@@ -921,6 +921,35 @@ func httpDocs(thorough bool, fn func(name string, d Doc)) {
 	}
 }
 
+// thorough: every pair of special strings in every pair of string positions of one request
+func httpDocsPairs(fn func(name string, d Doc)) {
+	type setter func(d *Doc, s string)
+	pos := []setter{
+		func(d *Doc, s string) { d.Requests[0].URI = "/" + s },
+		func(d *Doc, s string) { d.Requests[0].Tag = sp(s) },
+		func(d *Doc, s string) { d.Requests[0].Body = sp(s) },
+		func(d *Doc, s string) { d.Requests[0].Headers = map[string]string{"H": s} },
+		func(d *Doc, s string) { d.Sources[0].Variables = map[string]string{"b": s} },
+		func(d *Doc, s string) { d.Requests[0].Posts[2].Body = []string{s} },
+	}
+	for i := range pos {
+		for j := i + 1; j < len(pos); j++ {
+			for _, s1 := range special {
+				for _, s2 := range special {
+					d := Doc{
+						Sources:   []Source{{Name: "vars", Type: "variables", Variables: map[string]string{"b": "s"}}},
+						Requests:  []Request{{Name: "r1", Method: "POST", URI: "/auth", Headers: map[string]string{"H": "v"}, Tag: sp("t"), Body: sp("b"), Pre: map[string]string{"t": "source.vars.b"}, Posts: basePosts([]bool{true, false, true, true}, 15)}},
+						Scenarios: []Scenario{{Name: "s1", Requests: []string{"r1"}}},
+					}
+					pos[i](&d, s1)
+					pos[j](&d, s2)
+					fn("special-string-pairs", d)
+				}
+			}
+		}
+	}
+}
+
 func grpcDocs(thorough bool, fn func(name string, d Doc)) {
 	scen := []Scenario{{Name: "s1", Requests: []string{"c1"}}}
 	for _, tag := range []*string{nil, sp("t1")} {
@@ -1011,4 +1040,7 @@ func TestWorker(t *testing.T) {
 	}
 	httpDocs(spec.Thorough(), run)
 	grpcDocs(spec.Thorough(), run)
+	if spec.Thorough() {
+		httpDocsPairs(run)
+	}
 }
